@@ -38,6 +38,7 @@ use verif_harness::world::*;
 const ID_FORK: &str = "restart-equal-length-fork";
 const ID_ORPHAN: &str = "restart-replays-block-without-parent";
 const ID_WIPE: &str = "torn-file-discards-later-blocks";
+const ID_BATCH: &str = "undecodable-file-aborts-only-its-batch";
 
 struct Clock(AtomicU64);
 impl KeepTime for Clock {
@@ -207,6 +208,7 @@ struct Mark {
     supply: u128,
 }
 
+#[derive(Clone)]
 struct Hist {
     params: Params,
     blocks: Vec<HBlock>,
@@ -621,6 +623,9 @@ struct Outcome {
     orphan_parents: Vec<SaitoHash>,
     /// (hash, id) of every decodable file of the crashed disk
     disk_blocks: Vec<(SaitoHash, u64)>,
+    /// decodable files that on_init never loads: they follow an undecodable file inside the same
+    /// batch of 1000 names
+    batch_skipped: Vec<SaitoHash>,
     /// storage operations of the restart itself: (1 = write / 0 = remove, file name)
     ops: Vec<(u64, String)>,
     final_files: Vec<String>,
@@ -651,10 +656,27 @@ async fn eval_crash_point(h: &HistShared, cp: &CrashPoint) -> Outcome {
     saito_core::core::consensus::blockchain::VERIF_WIND_STEPS.with(|c| c.set((0, u64::MAX)));
     let d = disk_after(&h.journal, cp.k, cp.torn.map(|t| t.1));
     let mut disk_blocks: Vec<(SaitoHash, u64)> = vec![];
-    for v in d.files.values() {
+    let mut batch_skipped: Vec<SaitoHash> = vec![];
+    let mut aborted_batch: Option<usize> = None;
+    // d.files is ordered by name, as Storage::load_block_name_list orders the directory
+    for (pos, v) in d.files.values().enumerate() {
+        let mut decoded = None;
         if let Ok(Ok(mut b)) = std::panic::catch_unwind(|| Block::deserialize_from_net(v)) {
             if b.generate().is_ok() {
-                disk_blocks.push((b.hash, b.id));
+                decoded = Some((b.hash, b.id));
+            }
+        }
+        match decoded {
+            Some(x) => {
+                disk_blocks.push(x);
+                if aborted_batch == Some(pos / 1000) {
+                    batch_skipped.push(x.0);
+                }
+            }
+            None => {
+                if aborted_batch != Some(pos / 1000) {
+                    aborted_batch = Some(pos / 1000);
+                }
             }
         }
     }
@@ -674,6 +696,7 @@ async fn eval_crash_point(h: &HistShared, cp: &CrashPoint) -> Outcome {
         orphans: vec![],
         orphan_parents: vec![],
         disk_blocks,
+        batch_skipped,
         ops: vec![],
         final_files: vec![],
     };
@@ -924,6 +947,9 @@ fn judge(ctx: &Ctx, cp: &CrashPoint, out: &Result<Outcome, String>) -> Verdict {
                 .map(|i| h.blocks[*i].block.id <= min_disk_id || h.blocks[*i].eff_invalid)
                 .unwrap_or(false)
     });
+    // listed separately: the parent's file is intact but was never loaded because an undecodable
+    // file aborted its batch, while the orphan sits in a later batch
+    let batch_gap = !out.orphans.is_empty() && out.orphan_parents.iter().any(|ph| out.batch_skipped.contains(ph));
     if !out.orphans.is_empty() && !explained {
         v.failures.push(format!(
             "blocks with ids {:?} were replayed while their parent was not stored, and the parent is neither a rejected file nor at the purge horizon (oldest id on disk {})",
@@ -935,7 +961,9 @@ fn judge(ctx: &Ctx, cp: &CrashPoint, out: &Result<Outcome, String>) -> Verdict {
     // branch can be short and partly purged, so its ledger cannot be the replay of what is stored
     let forked = v.tip_class == "other-known-branch";
     let mut fail = |v: &mut Verdict, id: Option<&'static str>, w: String| {
-        if orphaned {
+        if batch_gap {
+            v.known.push((ID_BATCH, format!("{} (blocks with ids {:?} of a later batch were replayed although the batch holding their parent was aborted)", w, out.orphans)));
+        } else if orphaned {
             v.known.push((ID_ORPHAN, format!("{} (blocks with ids {:?} were replayed while their parent was not stored)", w, out.orphans)));
         } else if forked {
             v.known.push((ID_FORK, format!("{} (the node restarted on a competing branch)", w)));
@@ -976,6 +1004,27 @@ fn judge(ctx: &Ctx, cp: &CrashPoint, out: &Result<Outcome, String>) -> Verdict {
                 if after.supply != out.supply {
                     let w = format!("clean restart: supply {} before, {} after", after.supply, out.supply);
                     fail(&mut v, None, w);
+                }
+            }
+        }
+    }
+    // ---- crash point that comes up on a pre-crash tip: the ledger must be the one the node had there
+    if !clean {
+        for m in before.into_iter().chain(std::iter::once(after)) {
+            if let Some(ms) = &m.snap {
+                if ms.tip_hash == tip && tip != [0u8; 32] {
+                    let a = in_window_utxo(ms, gp);
+                    let b = in_window_utxo(s, gp);
+                    if a != b {
+                        let w = format!(
+                            "restarted on the pre-crash tip (id {}) with a different in-window spendable set: {} only before, {} only after",
+                            s.tip_id,
+                            a.difference(&b).count(),
+                            b.difference(&a).count()
+                        );
+                        fail(&mut v, None, w);
+                    }
+                    break;
                 }
             }
         }
@@ -1158,7 +1207,17 @@ async fn batch_gap_history(n: usize, torn_at: usize) -> (Hist, CrashPoint) {
     for i in 1..n {
         let parent = h.blocks[i - 1].block.clone();
         // a golden ticket in every second block keeps the density rule and the difficulty flat
-        let blk = make_block(&node, parent.hash, parent.timestamp + 1000, vec![], true, i as u64).await;
+        let ts = parent.timestamp + 1000;
+        let with_gt = i % 2 == 1;
+        let mut txs = vec![];
+        if !with_gt {
+            let sp = spendable(&node);
+            if let Some(s) = sp.first() {
+                txs.push(make_tx(&[s.clone()], &[(node.pk, s.amount)], &node.sk, ts));
+            }
+        }
+        let with_gt = with_gt || txs.is_empty();
+        let blk = make_block(&node, parent.hash, ts, txs, with_gt, i as u64).await;
         let blk = match blk {
             Ok(b) => b,
             Err(e) => {
@@ -1198,6 +1257,22 @@ fn main() {
             eprintln!("outcome: panic {:?} loaded {} intact {} ops {:?} deleted {} supply {} c03 {:?} extend {:?} orphans {:?} tip {:?}", o.panic, o.loaded, o.intact_on_disk, o.restart_ops, o.deleted.len(), o.supply, o.c03, o.extend, o.orphans, o.snap.as_ref().map(|s| (s.tip_id, s.lc_index.len(), s.lc_index.first().cloned().map(|x| x.0), s.blocks.len())));
         }
         eprintln!("verdict {} lost {} failures {:?} known {:?} in {:?}", v.tip_class, v.lost, v.failures, v.known, t0.elapsed());
+        let show = |s: &ChainSnapshot| {
+            for (k, v) in &s.utxo {
+                let sl = Slip::parse_slip_from_utxokey(k).unwrap();
+                eprintln!("   utxo blk {} tx {} idx {} amt {} type {:?} spendable {}", sl.block_id, sl.tx_ordinal, sl.slip_index, sl.amount, sl.slip_type, v);
+            }
+        };
+        if let Ok(o) = &out {
+            if let Some(s) = &o.snap {
+                eprintln!("restarted: lc {:?}", s.lc_index.iter().map(|x| x.0).collect::<Vec<_>>());
+                show(s);
+            }
+        }
+        if let Some(s) = &h.marks.last().unwrap().snap {
+            eprintln!("original:");
+            show(s);
+        }
         return;
     }
     let thorough = args.tier == "thorough";
@@ -1450,6 +1525,64 @@ fn main() {
             case_no += 1;
         }
         summary.count("crash_points_of_history", &format!("{}+", (total_points / 50) * 50));
+    }
+    // ---- more than 1000 files: one linear history of 1004 blocks, the start-up rewrite of the 2nd /
+    // 3rd / 500th file torn (selected crash points only)
+    if std::env::var("C12_ONLY").is_err() {
+        let (base, _) = rt.block_on(batch_gap_history(1004, 2));
+        for n in &base.notes {
+            summary.notes.push(n.clone());
+        }
+        let n_writes = base.journal.len() - 1;
+        for torn_at in [2usize, 3, 500] {
+            let mut h = base.clone();
+            h.journal.truncate(n_writes);
+            if let Some(DiskOp::Write(name, bytes)) = h.journal.get(torn_at - 1).cloned() {
+                h.journal.push(DiskOp::Write(name, bytes));
+            }
+            let ctx = Ctx { h: &h, by_hash: h.blocks.iter().enumerate().map(|(i, b)| (b.block.hash, i)).collect() };
+            let shared = Arc::new(HistShared { params: h.params.clone(), journal: h.journal.clone(), tree_blocks: h.blocks.clone() });
+            let mut pts = vec![CrashPoint { k: h.journal.len(), torn: Some(("inside-header", 100)) }];
+            if torn_at == 2 {
+                pts.push(CrashPoint { k: n_writes, torn: None });
+                pts.push(CrashPoint { k: h.journal.len(), torn: Some(("one-byte-short", 700)) });
+            }
+            for cp in &pts {
+                let cp_desc = format!(
+                    "{{\"history\":\"linear chain of {} blocks (genesis period {}, golden ticket in every second block, a transfer in the others), then the start-up rewrite of file number {} (name order)\",\"crash_after_ops\":{},\"last_op\":{}}}",
+                    h.blocks.len(),
+                    h.params.genesis_period,
+                    torn_at,
+                    cp.k,
+                    match cp.torn {
+                        None => "\"complete\"".to_string(),
+                        Some((c, m)) => format!("{{\"torn\":{},\"bytes_written\":{}}}", jstr(c), m),
+                    }
+                );
+                let out = run_crash_point(&shared, cp, Duration::from_secs(120));
+                let v = judge(&ctx, cp, &out);
+                if debug {
+                    eprintln!("case {} long history torn_at {} cp {:?}: {} lost {} {:?} {:?}", case_no, torn_at, cp, v.tip_class, v.lost, v.failures, v.known);
+                }
+                for f in &v.failures {
+                    summary.oracle_failure(case_no, f, &cp_desc);
+                }
+                for (id, w) in &v.known {
+                    summary.known_hit(id, case_no, w);
+                }
+                summary.count("gp", &h.params.genesis_period.to_string());
+                summary.count("scripted_history", "more-than-1000-files");
+                summary.count("restarted_tip", v.tip_class);
+                summary.count("blocks_lost", &v.lost.min(9).to_string());
+                if let Ok(o) = &out {
+                    summary.count("orphan_deliveries_at_restart", &o.orphans.len().min(3).to_string());
+                    summary.count("restart_deletes", &o.restart_ops.1.min(9).to_string());
+                }
+                summary.nontrivial += 1;
+                summary.case_descs.push(cp_desc);
+                case_no += 1;
+            }
+        }
     }
     summary.evaluations = case_no as u64;
     summary.notes.push(format!(
